@@ -416,9 +416,28 @@ XPathProcessorImpl::tokenize(const XalanDOMString&  pat)
                 {
                     startSubstring = i;
 
-                    if (XalanXMLChar::isDigit(c) == true)
+                    if (c == XalanUnicode::charFullStop &&
+                        (i + 1 >= nChars ||
+                         XalanXMLChar::isDigit(pat[i + 1]) == false))
                     {
-                        bool    gotFullStop = false;
+                        // "." and ".." are complete tokens, whatever follows
+                        // (a name cannot begin with a full stop)...
+                        if (i + 1 < nChars && pat[i + 1] == XalanUnicode::charFullStop)
+                        {
+                            ++i;
+                        }
+
+                        substring(pat, theToken, startSubstring, i + 1);
+
+                        addToTokenQueue(theToken);
+
+                        startSubstring = XalanDOMString::npos;
+                    }
+                    else if (XalanXMLChar::isDigit(c) == true ||
+                             c == XalanUnicode::charFullStop)
+                    {
+                        // A Number: Digits ('.' Digits?)? | '.' Digits
+                        bool    gotFullStop = c == XalanUnicode::charFullStop;
 
                         while(i < nChars - 1)
                         {
